@@ -128,17 +128,16 @@ pub fn parse(data: &str) -> Result<KyGElements, Error> {
                         bail!("Línea de datos de hueco con formato desconocido")
                     }
                     let (nombre, a, u, orienta, ff) = (vv[1], vv[2], vv[3], vv[4], vv[5]);
-                    let (ggln, unknown1, unknown2, infcoeff_100, cons) = if vv.len() > 10 {
-                        (
-                            Some(vv[6].replace(',', ".").parse()?),
-                            Some(vv[7].replace(',', ".").parse()?),
-                            Some(vv[8].replace(',', ".").parse()?),
-                            Some(vv[9].replace(',', ".").parse()?),
-                            Some(vv[10].to_string()),
-                        )
-                    } else {
-                        (None, None, None, None, None)
+                    // Columnas añadidas por las sucesivas versiones: se lee cada una si la línea la tiene
+                    let opt_f32 = |i: usize| -> Result<Option<f32>, Error> {
+                        match vv.get(i) {
+                            Some(v) if !v.is_empty() => Ok(Some(v.replace(',', ".").parse()?)),
+                            _ => Ok(None),
+                        }
                     };
+                    let (ggln, unknown1, unknown2, infcoeff_100) =
+                        (opt_f32(6)?, opt_f32(7)?, opt_f32(8)?, opt_f32(9)?);
+                    let cons = vv.get(10).map(|v| v.to_string());
                     kyg.windows.insert(
                         nombre.to_string(),
                         Window {
@@ -165,15 +164,12 @@ pub fn parse(data: &str) -> Result<KyGElements, Error> {
                     // Datos de muro
                     let (nombre, a, u, btrx) = (vv[1], vv[2], vv[3], vv[4]);
                     // CTEHE2019 y mayores
-                    let (wtype, orientation, cons) = if vv.len() > 7 {
-                        (
-                            Some(vv[5].to_string()),
-                            Some(vv[6].to_string()),
-                            Some(vv[7].to_string()),
-                        )
-                    } else {
-                        (None, None, None)
-                    };
+                    // Se lee cada columna si la línea la tiene
+                    let (wtype, orientation, cons) = (
+                        vv.get(5).map(|v| v.to_string()),
+                        vv.get(6).map(|v| v.to_string()),
+                        vv.get(7).map(|v| v.to_string()),
+                    );
 
                     kyg.walls.insert(
                         nombre.to_string(),
